@@ -311,15 +311,9 @@ func c06judge(r *core.R, d *c06driver, plan []fsx.Fault, b *c06res, res *c06res)
 		}
 	}
 	// a rollback/cleanup step failed (bound 2): the error must say where the backup was kept and it must hold the original bytes
-	rollbackFault := false
-	for i, f := range plan {
-		if i > 0 || true {
-			k := strings.SplitN(f.Class, " ", 2)[0]
-			if cleanupKind(k) && i > 0 {
-				rollbackFault = true
-			}
-		}
-	}
+	// Any second fault lands after the first failure, i.e. in the rollback/cleanup phase: that includes the
+	// open/close of a directory handle around its fsync, not only remove/rename/removeall/syncdir events.
+	rollbackFault := len(plan) > 1
 	for _, df := range diffs {
 		kind := df[:strings.Index(df, ":")]
 		name := df[strings.Index(df, ":")+1:]
